@@ -27,6 +27,54 @@ def summarize_model(m, limit=12):
     return out
 
 
+def line_coverage(functions, lines_hit, focus=None):
+    """Lines of the entered repository functions that the SYMBOLIC runs executed (sys.monitoring LINE events in the twin
+    modules), against the executable lines of the function's code object.  Unreached lines are listed for the functions in
+    the harness' FOCUS list (all entered functions when there is none, capped)."""
+    import pathlib
+    src_dir = pathlib.Path("/repo/cryocat")
+    by_mod = {}
+    for f in functions:
+        m, q = f.split(":", 1)
+        by_mod.setdefault(m, set()).add(q)
+    out = {"note": "symbolic runs only; executable = line numbers of the function's code object (def line excluded)", "functions": {}}
+    tot_e = tot_r = 0
+    for m, quals in sorted(by_mod.items()):
+        path = src_dir / (m + ".py")
+        if not path.exists():
+            continue
+        text = path.read_text()
+        src_lines = text.split("\n")
+        try:
+            top = compile(text, str(path), "exec")
+        except SyntaxError:
+            continue
+        stack = [top]
+        while stack:
+            c = stack.pop()
+            for k in c.co_consts:
+                if hasattr(k, "co_code"):
+                    stack.append(k)
+            if c.co_qualname in quals and c is not top:
+                ex = set(l for _, _, l in c.co_lines() if l is not None and l != c.co_firstlineno)
+                for k in c.co_consts:       # nested lambdas / comprehensions count with their parent
+                    if hasattr(k, "co_code") and k.co_qualname not in quals:
+                        ex |= set(l for _, _, l in k.co_lines() if l is not None)
+                hit = set(l for (mm, l) in lines_hit if mm == m and l in ex)
+                if not hit:
+                    continue        # entered only by the concrete runs
+                key = "%s:%s" % (m, c.co_qualname)
+                rec = {"executable": len(ex), "reached": len(hit)}
+                tot_e += len(ex)
+                tot_r += len(hit)
+                if (focus is None and len(ex - hit) <= 12) or (focus is not None and key in focus):
+                    rec["not_reached"] = ["%d: %s" % (l, src_lines[l - 1].strip()[:110]) for l in sorted(ex - hit)][:60]
+                out["functions"][key] = rec
+    out["total_executable"] = tot_e
+    out["total_reached"] = tot_r
+    return out
+
+
 def finish(prop, mod, tier, seed, res, known, t0, verbose=False, extra_cov=None, extra_violations=None, extra_obligations=None):
     expected_exc = getattr(mod, "EXPECTED_EXCEPTIONS", ())
     violations = []      # dicts
@@ -43,6 +91,8 @@ def finish(prop, mod, tier, seed, res, known, t0, verbose=False, extra_cov=None,
     incomplete_jobs = 0
     solver_s = 0.0
     by_solver = {}
+    lemma_keys = set()
+    lines_hit = set()
 
     def add_violation(fn, params, obligation, model, why, exception=None):
         k = cli.match_known(known, prop, fn, params, obligation, exception)
@@ -63,6 +113,8 @@ def finish(prop, mod, tier, seed, res, known, t0, verbose=False, extra_cov=None,
             js["queries"] += p.get("queries", 0)
             js["seconds"] += p.get("seconds", 0)
             functions.update(p.get("functions", []))
+            lemma_keys.update(p.get("lemmas", []))
+            lines_hit.update(tuple(x) for x in p.get("lines", []))
             if p.get("decisions", 0) > 0 or any(o.get("solver") not in (None, "simplify") for o in p.get("obligations", [])):
                 n_nontriv += 1
             st = p["status"]
@@ -188,10 +240,21 @@ def finish(prop, mod, tier, seed, res, known, t0, verbose=False, extra_cov=None,
         "source_sha256": hashes,
         "bounds": getattr(mod, "BOUNDS", {}).get(tier, getattr(mod, "BOUNDS", {})),
         "outside_claim": getattr(mod, "OUTSIDE", []),
+        "witness_only_clauses": getattr(mod, "WITNESS_ONLY", []),
         "jobs": jobs_summary,
         "known_findings_hit": sorted(known_hits),
         "exhaustive": False,
     }
+    try:
+        cov["line_coverage_of_entered_functions"] = line_coverage(functions, lines_hit, getattr(mod, "FOCUS", None))
+    except Exception as e:      # noqa
+        cov["line_coverage_of_entered_functions"] = {"error": repr(e)}
+    if lemma_keys:
+        try:
+            from . import rotation
+            cov["lemmas"] = rotation.lemma_report(sorted(lemma_keys))
+        except Exception as e:      # noqa
+            cov["lemmas"] = [{"error": repr(e)}]
     if extra_cov:
         cov.update(extra_cov)
     ev = {
